@@ -304,6 +304,10 @@ func CheckBitRangeBigEndian(frameLength, rangeStart, rangeLength uint8) error {
 
 // CheckValue checks that a value fits in a number of bits.
 func CheckValue(value uint64, bits uint8) error {
+	if bits >= 64 {
+		// every uint64 value fits in 64 bits (1<<64 would wrap to 0)
+		return nil
+	}
 	upperBound := uint64(1 << bits)
 	if value >= upperBound {
 		return fmt.Errorf("value out of bounds [0, %v): %v", upperBound, value)
